@@ -70,8 +70,9 @@ def boostOne (factor minPri : Rat) (limit : Nat) (draw : Nat → Rat) (e : Entry
     if pb != 0 then { e with pri := { e.pri with boost := pb } } else e
   else e
 
-/-- `do_maintenance` + `boost_stragglers`: one pass over the array; `refresh()` (heapify) only when
-    some boost was applied (`n_boosted > 0`). -/
+/-- `do_maintenance` + `boost_stragglers` as a state transformer: one pass over the array; `refresh()`
+    (heapify) only when some boost was applied (`n_boosted > 0`).  Its return value is
+    `maintenanceDone` below. -/
 def doMaintenance (s : PosPQ) (draw : Nat → Rat) : PosPQ :=
   if s.factor == 0 then s else
   match regularMinMax s.q.pq with
@@ -84,13 +85,29 @@ def doMaintenance (s : PosPQ) (draw : Nat → Rat) : PosPQ :=
       { s with q := ⟨s.q.seq, H.heapify (Entry.lt PV.lt) (s.q.pq.map (boostOne s.factor minPri limit draw))⟩ }
     else s
 
-/-- `update_counters(inserted)` -/
+/-- a long-waiting regular entry: `priority_class != 0` and `inserted_at < limit` (what
+    `do_maintenance` puts on its `stragglers` list) -/
+def isStraggler (limit : Nat) (e : Entry PV) : Bool :=
+  e.pri.cls != 0 && decide (e.pri.insertedAt < limit)
+
+/-- the value `do_maintenance()` returns, as a function of the state it is called in: `False`
+    exactly when the boost factor is non-zero, some regular entry is long-waiting and there are fewer
+    than two regular entries (`n_regular < 2`): the straggler has nothing to be compared with, the
+    round is to be repeated at the next insertion. -/
+def maintenanceDone (s : PosPQ) : Bool :=
+  s.factor == 0 ||
+    !(s.q.pq.any (isStraggler (s.nIns - s.len)) && decide (s.q.pq.countP (fun e => e.pri.cls != 0) < 2))
+
+/-- `update_counters(inserted)`: the maintenance mark only advances when `do_maintenance()` reports
+    the round as done -/
 def updateCounters (s : PosPQ) (inserted : Bool) (draw : Nat → Rat) : PosPQ :=
   if inserted then
     let s := { s with nIns := s.nIns + 1 }
     let thr := min s.nIns s.nRem
     let limit := max 10 s.len + s.lastMaint
-    if thr > limit then { doMaintenance H s draw with lastMaint := thr } else s
+    if thr > limit then
+      if maintenanceDone s then { doMaintenance H s draw with lastMaint := thr } else doMaintenance H s draw
+    else s
   else
     if s.len > 0 then { s with nRem := s.nRem + 1 }
     else { s with nIns := 0, nRem := 0, lastMaint := 0 }
